@@ -70,8 +70,11 @@ static void dump_tt(QOut &q, const TT &t) {
 // ------------------------------------------------------------------------------------ brute-force definitions
 
 static std::vector<int> hf_verts(W &w, HFH hf) {
+    // total, with the defaults of the model (an out-of-range face has no halfedges, an out-of-range edge is (0,0))
     std::vector<int> r;
-    for (auto he : w.mesh.halfface(hf).halfedges()) r.push_back(w.mesh.halfedge(he).from_vertex().idx());
+    if (hf.idx() < 0 || hf.idx() >= 2 * (int)w.mesh.n_faces()) return r;
+    for (auto he : w.mesh.halfface(hf).halfedges())
+        r.push_back(he.idx() >= 0 && he.idx() < 2 * (int)w.mesh.n_edges() ? w.mesh.halfedge(he).from_vertex().idx() : 0);
     return r;
 }
 
